@@ -222,8 +222,10 @@ def block(rng, W, named):
         return table(rng, W, named) + [""]
     if r < 0.88:
         return bigtable(rng, W) + [""]
-    if r < 0.92:
+    if r < 0.91:
         return preblock(rng, W)
+    if r < 0.93:        # 2..25 equal (or, as control, distinct) offenders under one forbidden ancestor, each carrying words
+        return equal_offenders(rng, W, wordy=True, contexts=EQ_ORDINARY).strip("\n").split("\n") + [""] if rng.random() < 0.8 else preblock(rng, W)
     if r < 0.95:
         return linkbody(rng, W)
     return [": " + inline(rng, W, 1, named=named), ""]
@@ -332,6 +334,10 @@ def attrs(rng):
     if rng.random() < 0.1:
         a.append(rng.choice(['colspan="3"', 'rowspan="2"', 'colspan="99"', 'colspan="x"', 'STYLE="Overflow:Auto;height:900px"',
                              'name="n1"', 'align="right"', 'dir="rtl"', 'border="1"']))
+    if rng.random() < 0.08:
+        v = rng.choice(NUM_SPELLINGS)
+        if len(v) < 50:                         # (documents of this generator are cut at 4000 characters)
+            a.append(numattr(rng, val=v))
     rng.shuffle(a)
     return (" " + " ".join(a)) if a else ""
 
@@ -409,6 +415,18 @@ def frag(rng, W, depth=0):
 
 def adversarial(rng):
     W = Words()
+    k = rng.random()
+    if k < 0.10:                                # family: numeric attributes x number spellings
+        t = numeric_doc(rng)
+        if rng.random() < 0.3:
+            t = frag(rng, W, 2) + "\n" + t + frag(rng, W, 2)
+        return t
+    if k < 0.15:                                # family: equal offenders under one forbidden ancestor
+        W = Words("v")
+        t = equal_offenders(rng, W)
+        if rng.random() < 0.3:
+            t = frag(rng, W, 2) + "\n" + t + frag(rng, W, 2)
+        return t
     n = rng.randint(1, 7)
     text = "".join(frag(rng, W, 0) + rng.choice(["", " ", "\n", "\n\n"]) for _ in range(n))
     # mutation
@@ -454,13 +472,22 @@ READ_ATTRS = []          # literal keys the anchored sources read from attribute
 SPAN_ATTRS = ["colspan", "rowspan"]
 
 
-def set_read_attrs(names):
-    """names: literal keys that the cleaner, advtree and the style helpers read from node.attributes / vlist / style in the
-    CURRENT source (found by vt.props.c05.read_attr_names).  Every one of them gets the full number-spelling sweep."""
+READ_STYLES = []         # literal keys read from a node's style dict
+
+
+def set_read_attrs(names, styles=()):
+    """names / styles: literal keys that the cleaner, advtree and the style helpers read from node.attributes / vlist resp.
+    from the style dict in the CURRENT source (found by vt.props.c05.read_attr_names).  Every one of them gets the full
+    number-spelling sweep."""
     del READ_ATTRS[:]
     READ_ATTRS.extend(sorted(set(names)))
+    del READ_STYLES[:]
+    READ_STYLES.extend(sorted(set(styles)))
     del NUM_ATTRS[:]
     NUM_ATTRS.extend(NUM_ATTRS_STATIC + [n for n in READ_ATTRS if n not in NUM_ATTRS_STATIC])
+    for n in READ_STYLES:
+        if n not in LENGTH_PROPS and n not in KEYWORD_PROPS:
+            LENGTH_PROPS.append(n)
 
 
 def quote(rng, v):
@@ -532,9 +559,11 @@ def numeric_doc(rng):
 
 def numeric_sweep():
     """attribute x spelling, exhaustively, on the element the attribute belongs to: the span attributes and every attribute
-    the anchored code reads by name, on a table cell next to a spanned row (so that the colspan passes run) and on a div"""
+    the anchored code reads by name, on a table cell of a two-row table (so that the colspan passes run) resp. on a div and a
+    table; every style property the anchored code reads by name, bare and with a unit, next to the trigger that makes a
+    pass read it"""
     docs = []
-    names = SPAN_ATTRS + [n for n in READ_ATTRS if n not in SPAN_ATTRS]
+    names = SPAN_ATTRS + [n for n in READ_ATTRS if n not in SPAN_ATTRS and n != "style"]
     for n in names:
         for v in NUM_SPELLINGS:
             q = "'%s'" % v if '"' in v else '"%s"' % v
@@ -542,6 +571,11 @@ def numeric_sweep():
                 docs.append("{|\n|-\n| %s=%s | a\n| b\n|-\n| c || d\n|}\n" % (n, q))
             else:
                 docs.append('<div %s=%s>a</div>\n{| %s=%s\n|-\n| b\n|}\n' % (n, q, n, q))
+    for n in READ_STYLES:
+        for v in NUM_SPELLINGS:
+            if '"' in v or ";" in v or len(v) > 450:
+                continue
+            docs.append('<div style="overflow:auto;position:absolute;%s:%s">a</div>\n{| style="%s:%spx;overflow:auto"\n|-\n| b\n|}\n' % (n, v, n, v))
     return docs
 
 
@@ -567,10 +601,18 @@ EQ_CONTEXTS = [
 ]
 
 
-def equal_offenders(rng, W, n=None, wordy=False):
+# the subset that is ordinary printable content (C07's grammar): captioned images in a preformatted line, equal indented
+# lines / equal one-line definition items inside one paragraph
+EQ_ORDINARY = [
+    (" ", "\n", " ", ["[[File:%s.png|%s]]"]),
+    ("", "\n", "\n", [": %s", ": %s %s", ": ''%s''"]),
+]
+
+
+def equal_offenders(rng, W, n=None, wordy=False, contexts=None):
     """n equal (85%) or pairwise distinct offenders, all forbidden under the same ancestor, optionally with text between
     them.  wordy: every offender carries words (so that C07's word count sees a multiplied or lost copy)."""
-    op, cl, sep, offs = rng.choice(EQ_CONTEXTS)
+    op, cl, sep, offs = rng.choice(contexts or EQ_CONTEXTS)
     off = rng.choice(offs)
     if wordy and "%s" in off and off.startswith("[["):
         off = "[[File:%s.png|%s]]"
